@@ -758,7 +758,7 @@ func (p *parser) parseClause() (Clause, error) {
 		return cl, err
 	}
 	cl.Expr = e
-	cl.Text = strings.Join(strings.Fields(p.src[start:p.peek().pos]), " ")
+	cl.Text = strings.Join(strings.Fields(stripComments(p.src[start:p.peek().pos])), " ")
 	return cl, nil
 }
 
@@ -868,7 +868,7 @@ func (p *parser) parseFuncClauses(fc *FuncContract) error {
 				return err
 			}
 			curLoop.Decreases = e
-			curLoop.DecText = strings.TrimSpace(p.src[start:p.peek().pos])
+			curLoop.DecText = strings.TrimSpace(stripComments(p.src[start:p.peek().pos]))
 		case "modifies":
 			if curLoop == nil {
 				return p.errf("modifies outside loop")
@@ -1294,3 +1294,14 @@ func (p *parser) parsePrimary() (CExpr, error) {
 	return nil, fmt.Errorf("%s:%d: unexpected token %q", p.file, t.line, t.text)
 }
 
+
+func stripComments(s string) string {
+	var out []string
+	for _, ln := range strings.Split(s, "\n") {
+		if i := strings.Index(ln, "//"); i >= 0 {
+			ln = ln[:i]
+		}
+		out = append(out, ln)
+	}
+	return strings.Join(out, "\n")
+}
